@@ -44,8 +44,12 @@ Definition C10_sharing_statement : Prop := forall P be i p' st', wf P = true -> 
   pt_id P = Some i -> load (length (nodes P)) be fresh_l i = Ok (p', st') ->
   forall a b j, In a (nodes p') -> In b (nodes p') -> pt_id a = Some j -> pt_id b = Some j -> a = b.
 
-(* every stored document stands alone: named sub-templates appear as reference nodes, never inline (open; tested) *)
-Definition C10_documents_statement : Prop := forall p, wf p = true -> doc_fields_ok (to_data p) = true.
+(* every stored document stands alone: below the top level no object of a real class carries an identifier, i.e. named
+   sub-templates appear as reference nodes only; an unnamed template's data embeds no named template at all *)
+Theorem C10_documents : forall p, wf p = true ->
+  doc_fields_ok (to_data p) = true /\ (pt_id p = None -> no_inline_named (to_data p) = true).
+Proof. exact documents_ok. Qed.
+Print Assumptions C10_documents.
 
 (* the hypotheses are satisfiable by a nested template with a shared named child, stored by the model's own store *)
 Theorem C10_example_hypotheses : wf ex_P = true /\ consistent ex_P /\ pt_id ex_P = Some "s" /\
